@@ -10,6 +10,7 @@ import (
 	"time"
 
 	"github.com/pion/interceptor"
+	"github.com/pion/interceptor/pkg/cc"
 	"github.com/pion/interceptor/pkg/gcc"
 	"github.com/pion/interceptor/pkg/pacing"
 	"github.com/pion/rtp"
@@ -60,7 +61,10 @@ type qCase struct {
 	Rate    int      `json:"rate"`
 	Rates   []int    `json:"rates,omitempty"` // mid-stream rate changes
 	Writers [][]spec `json:"writers"`
-	Infos   []uint32 `json:"infos,omitempty"` // pacing: StreamInfo.SSRC per stream (default 1000+w)
+	Infos   []uint32 `json:"infos,omitempty"` // pacing: StreamInfo.SSRC per stream (default 1000+w); leaky: the SSRC stream w is registered with (AddStream) and that its packets carry
+	// leaky only: "" = streams registered on the gcc.LeakyBucketPacer directly; "bwe" = through gcc.SendSideBWE.AddStream
+	// (default pacer); "cc" = through the cc interceptor's BindLocalStream (default estimator factory shape, default pacer)
+	Via string `json:"via,omitempty"`
 	// Hold > 0: the next writers of the streams, when called for the first Hold deliveries, do not look at the packet
 	// at once: first the pacer's own goroutine (inline, from inside the next writer's call) and then a second goroutine
 	// (while the call waits for it) each write one packet of Extra on an additional stream len(Writers). This forces
@@ -88,7 +92,7 @@ func infoSSRC(infos []uint32, w int) uint32 {
 // header SSRC is free.
 func hdrSSRC(kind string, infos []uint32, nw, w int, s spec) uint32 {
 	if kind != "pacing" {
-		return uint32(1000 + w) //nolint:gosec
+		return infoSSRC(infos, w)
 	}
 	switch s.SSRCMode {
 	case 1:
@@ -172,6 +176,97 @@ func (c *collector) wait(total func() int, quiet time.Duration, max time.Duratio
 	}
 }
 
+// leakyStreams registers len(ws) streams with the SSRCs infoSSRC(infos, w) on a leaky-bucket pacer - directly, through
+// gcc.SendSideBWE or through the cc interceptor - and fills ws with the writers to write on.
+func leakyStreams(via string, rate int, infos []uint32, ws []interceptor.RTPWriter, next func(w int) interceptor.RTPWriter) (func() error, func(int)) {
+	switch via {
+	case "bwe":
+		bwe, err := gcc.NewSendSideBWE(gcc.SendSideBWEInitialBitrate(rate))
+		if err != nil {
+			panic(err)
+		}
+		for w := range ws {
+			ws[w] = bwe.AddStream(&interceptor.StreamInfo{SSRC: infoSSRC(infos, w)}, next(w))
+		}
+
+		return bwe.Close, func(int) {}
+	case "cc":
+		f, err := cc.NewInterceptor(func() (cc.BandwidthEstimator, error) {
+			return gcc.NewSendSideBWE(gcc.SendSideBWEInitialBitrate(rate))
+		})
+		if err != nil {
+			panic(err)
+		}
+		ic, err := f.NewInterceptor("x")
+		if err != nil {
+			panic(err)
+		}
+		for w := range ws {
+			ws[w] = ic.BindLocalStream(&interceptor.StreamInfo{SSRC: infoSSRC(infos, w)}, next(w))
+		}
+
+		return ic.Close, func(int) {}
+	default:
+		p := gcc.NewLeakyBucketPacer(rate)
+		for w := range ws {
+			p.AddStream(infoSSRC(infos, w), next(w))
+			ws[w] = p
+		}
+
+		return p.Close, p.SetTargetBitrate
+	}
+}
+
+// ssrcPool: unusual but legal SSRC values (every uint32 is a legal SSRC)
+var ssrcPool = []uint32{0, 0xFFFFFFFF, 1, 0x80000000, 0x7FFFFFFF, 0xFFFF, 0x10000, 0xFFFFFFFE}
+
+// leakySSRCs chooses the SSRCs of n leaky-bucket streams: all distinct (for this pacer the stream of a packet IS its
+// header SSRC). mode 0: 1000+w (the earlier rounds), 1: one stream has SSRC 0, 2: one stream has 0xFFFFFFFF,
+// 3: all from the pool of boundary values, 4: random 32-bit values with 0 among them.
+func leakySSRCs(r *rand.Rand, n int, b []string) ([]uint32, []string) {
+	mode := r.Intn(5)
+	if mode == 0 {
+		return nil, append(b, "ssrc-1000+w")
+	}
+	out := make([]uint32, 0, n)
+	used := map[uint32]bool{}
+	add := func(v uint32) {
+		for used[v] {
+			v = r.Uint32()
+		}
+		used[v] = true
+		out = append(out, v)
+	}
+	special := r.Intn(n)
+	perm := r.Perm(len(ssrcPool))
+	for w := 0; w < n; w++ {
+		switch {
+		case mode == 1 && w == special:
+			add(0)
+		case mode == 2 && w == special:
+			add(0xFFFFFFFF)
+		case mode == 3:
+			add(ssrcPool[perm[w%len(perm)]])
+		case mode == 4 && w == special:
+			add(0)
+		case mode == 4:
+			add(r.Uint32())
+		default:
+			add(uint32(1000 + w)) //nolint:gosec
+		}
+	}
+	for _, v := range out {
+		switch v {
+		case 0:
+			b = append(b, "stream-ssrc-zero")
+		case 0xFFFFFFFF:
+			b = append(b, "stream-ssrc-max")
+		}
+	}
+
+	return out, append(b, "ssrc-unusual")
+}
+
 func runQ(c qCase, fails *[]cq.ImplFailure) qCase {
 	col := &collector{}
 	nw := len(c.Writers)
@@ -239,13 +334,7 @@ func runQ(c qCase, fails *[]cq.ImplFailure) qCase {
 			}
 		}
 	default:
-		p := gcc.NewLeakyBucketPacer(c.Rate)
-		for w := 0; w < ns; w++ {
-			p.AddStream(uint32(1000+w), next(w)) //nolint:gosec
-			ws[w] = p
-		}
-		closer = p.Close
-		setRate = p.SetTargetBitrate
+		closer, setRate = leakyStreams(c.Via, c.Rate, c.Infos, ws, next)
 		c.Burst = 0
 	}
 	send := func(w int) {
@@ -366,12 +455,7 @@ func runClose(c closeCase, fails *[]cq.ImplFailure) closeCase { //nolint:cyclop
 		closer = ic.Close
 		c.Burst = int64(pacing.VerifBurst(c.Rate, time.Millisecond))
 	default:
-		p := gcc.NewLeakyBucketPacer(c.Rate)
-		for w := 0; w < nw; w++ {
-			p.AddStream(uint32(1000+w), col.writer(int64(w))) //nolint:gosec
-			ws[w] = p
-		}
-		closer = p.Close
+		closer, _ = leakyStreams("", c.Rate, c.Infos, ws, func(w int) interceptor.RTPWriter { return col.writer(int64(w)) })
 		c.Burst = 0
 	}
 	c.Obs = make([][]wrObs, nw)
@@ -727,6 +811,19 @@ type envCase struct {
 	// or two-byte header extensions of up to ~240 bytes, payload empty or a few bytes, so the header dominates the
 	// packet; 2 = such packets mixed with plain 12-byte-header packets carrying 200..1200 bytes)
 	Hdr int `json:"hdr,omitempty"`
+	// IntervalMS: the Interval option of the interceptor in ms; 0 = 1 ms (the cases of the earlier rounds), -1 = no
+	// Interval option (the factory's default, 5 ms)
+	IntervalMS int `json:"interval_ms,omitempty"`
+	// IdleMS > 0: idle-then-backlog family. Rounds times: Pre packets are written (the stream is running), then - if
+	// Rates is not empty - InterceptorFactory.SetRate(Rates[round]) (a MID-STREAM rate change), then nothing is written
+	// for IdleMS ms (the bucket fills up to its burst), then N packets of PkMin..PkMax payload bytes are written at once
+	// (a backlog) and the run waits until they are out. What leaves in the first ticks after the idle period is bounded
+	// by the BURST ALLOWANCE of the configured interval, not by the rate.
+	IdleMS int `json:"idle_ms,omitempty"`
+	Pre    int `json:"pre,omitempty"`
+	Rounds int `json:"rounds,omitempty"`
+	PkMin  int `json:"pk_min,omitempty"`
+	PkMax  int `json:"pk_max,omitempty"`
 	R0         int64      `json:"r0"`
 	B0         int64      `json:"b0"`
 	T0         int64      `json:"t0"`
@@ -755,7 +852,11 @@ func runEnv(c envCase, r *rand.Rand) envCase {
 			c.Evs = append(c.Evs, [4]int64{0, e.T.Sub(base).Nanoseconds(), int64(e.N), ok})
 		}
 	}
-	f := pacing.NewInterceptor(pacing.InitialRate(c.Rate), pacing.Interval(time.Millisecond), pacing.VerifRecordingLimiter(rec))
+	opts := []pacing.Option{pacing.InitialRate(c.Rate), pacing.VerifRecordingLimiter(rec)}
+	if c.IntervalMS >= 0 {
+		opts = append(opts, pacing.Interval(time.Duration(c.ivMS())*time.Millisecond))
+	}
+	f := pacing.NewInterceptor(opts...)
 	ic, err := f.NewInterceptor("e")
 	if err != nil {
 		panic(err)
@@ -771,6 +872,41 @@ func runEnv(c envCase, r *rand.Rand) envCase {
 
 			return 0, nil
 		}))
+	if c.IdleMS > 0 {
+		seq, want := 0, 0
+		plain := func(k int) {
+			for j := 0; j < k; j++ {
+				_, _ = w.Write(&rtp.Header{Version: 2, SSRC: 1, SequenceNumber: uint16(seq)}, make([]byte, c.PkMin+r.Intn(c.PkMax-c.PkMin+1)), nil) //nolint:gosec
+				seq++
+			}
+			want += k
+		}
+		for round := 0; round < c.Rounds; round++ {
+			plain(c.Pre)
+			if len(c.Rates) > 0 {
+				f.SetRate("e", c.Rates[round%len(c.Rates)])
+				c.NSets++
+			}
+			time.Sleep(time.Duration(c.IdleMS) * time.Millisecond)
+			plain(c.N)
+			deadline := time.Now().Add(600 * time.Millisecond)
+			for time.Now().Before(deadline) {
+				nmu.Lock()
+				d := n
+				nmu.Unlock()
+				if d >= want {
+					break
+				}
+				time.Sleep(time.Millisecond)
+			}
+		}
+		_ = ic.Close()
+		mu.Lock()
+		c.NEvs = len(c.Evs)
+		mu.Unlock()
+
+		return c
+	}
 	for i := 0; i < c.N; i++ {
 		if c.Hdr > 0 && (c.Hdr == 1 || r.Intn(2) == 0) {
 			h, pay := heavyHeader(r, i)
@@ -856,6 +992,89 @@ func heavyHeader(r *rand.Rand, i int) (*rtp.Header, []byte) {
 	return h, pay
 }
 
+// ivMS: the configured pacing interval in ms as the oracle uses it.
+func (c envCase) ivMS() int64 {
+	switch {
+	case c.IntervalMS == 0:
+		return 1
+	case c.IntervalMS < 0:
+		return 5
+	default:
+		return int64(c.IntervalMS)
+	}
+}
+
+// toCaseW: the same run as a case of set c17envw: the configured interval in front, so that the oracle computes the
+// burst allowance itself (from the configured interval and the rates) instead of believing the burst the
+// implementation handed to its limiter.
+func (c envCase) toCaseW() cq.Case {
+	k := c.toCase()
+	k.Coq = cq.T(cq.Z(c.ivMS()), k.Coq)
+	k.Buckets = append(append([]string{}, k.Buckets...), fmt.Sprintf("interval-%dms", c.ivMS()))
+	if c.IntervalMS < 0 {
+		k.Buckets = append(k.Buckets, "interval-default")
+	}
+	if c.IdleMS > 0 {
+		if len(c.Rates) > 0 {
+			k.Buckets = append(k.Buckets, "mid-stream-setrate-then-idle")
+			hi := false
+			for _, rt := range c.Rates {
+				if rt > 2_400_000 {
+					hi = true
+				}
+			}
+			if hi && c.ivMS() < 5 {
+				k.Buckets = append(k.Buckets, "setrate-above-2.4M-interval-below-default")
+			}
+		} else {
+			k.Buckets = append(k.Buckets, "initial-rate-then-idle")
+		}
+	}
+
+	return k
+}
+
+// genIdle: one idle-then-backlog case.
+func genIdle(r *rand.Rand, i int) envCase {
+	c := envCase{IdleMS: 8 + r.Intn(18), Pre: 2 + r.Intn(8), Rounds: 1 + r.Intn(3), N: 40 + r.Intn(50)}
+	switch i % 6 {
+	case 0, 1, 2: // below the default interval
+		c.IntervalMS = 1 + r.Intn(4)
+		if i%6 == 0 {
+			c.IntervalMS = 1
+		}
+	case 3:
+		c.IntervalMS = -1 // default
+	case 4:
+		c.IntervalMS = 5 + r.Intn(16)
+	default:
+		c.IntervalMS = 2
+	}
+	rate := func() int {
+		switch r.Intn(4) {
+		case 0:
+			return 2_500_000 + r.Intn(3_000_000) // just above the 12000-bit floor of a 5 ms burst
+		case 1:
+			return 300_000 + r.Intn(2_000_000) // floor on both sides
+		default:
+			return 5_000_000 + r.Intn(35_000_000)
+		}
+	}
+	c.Rate = rate()
+	if i%4 != 3 { // three quarters with a mid-stream rate change before every idle period
+		for k := 0; k < c.Rounds; k++ {
+			c.Rates = append(c.Rates, rate())
+		}
+	}
+	if r.Intn(2) == 0 {
+		c.PkMin, c.PkMax = 100, 400 // small packets: the bucket is emptied to the last few hundred bits
+	} else {
+		c.PkMin, c.PkMax = 200, 1200
+	}
+
+	return c
+}
+
 func (c envCase) toCase() cq.Case {
 	ev := make([]string, len(c.Evs))
 	for i, e := range c.Evs {
@@ -875,6 +1094,9 @@ func (c envCase) toCase() cq.Case {
 		if len(c.Sizes) < c.N {
 			b = append(b, "backlog-sustained")
 		}
+	}
+	if c.IdleMS > 0 {
+		b = []string{"idle-then-backlog"}
 	}
 	if c.Hdr > 0 {
 		b = []string{"large-headers-under-backlog", map[int]string{1: "every-packet-header-dominated", 2: "large-and-plain-headers-mixed"}[c.Hdr]}
@@ -905,8 +1127,11 @@ func main() {
 	lcl := &cq.Set{Name: "c17lclose", Import: "IV.Check.C17bCheck", CaseType: "close_case", Checks: []string{"lclose_mismatches", "lclose_spec_failures"}}
 	rou := &cq.Set{Name: "c17route", Import: "IV.Check.C17cCheck", CaseType: "route_case", Checks: []string{"route_mismatches", "route_spec_failures"}}
 	fai := &cq.Set{Name: "c17fail", Import: "IV.Check.C17dCheck", CaseType: "fail_case", Checks: []string{"fail_mismatches", "fail_spec_failures"}}
+	// the envelope with the burst allowance computed by the oracle from the CONFIGURED interval, windowed (every window of
+	// the run, so also the one that begins after an idle period)
+	enw := &cq.Set{Name: "c17envw", Import: "IV.Check.C17eCheck", CaseType: "envw_case", Checks: []string{"env_cfg_failures"}}
 	// fail and route first: their failure codes name the error (retried hand-off, wrong stream)
-	sets := []*cq.Set{fai, rou, pac, lea, env, pcl, lcl}
+	sets := []*cq.Set{fai, rou, pac, lea, enw, env, pcl, lcl}
 	if o.Replay != "" {
 		var probe map[string]interface{}
 		switch cq.LoadReplay(o.Replay, &probe) {
@@ -914,6 +1139,12 @@ func main() {
 			var c envCase
 			cq.LoadReplay(o.Replay, &c)
 			env.Cases = append(env.Cases, runEnv(c, r).toCase())
+		case "c17envw":
+			var c envCase
+			cq.LoadReplay(o.Replay, &c)
+			for k := 0; k < 3; k++ { // what the first ticks after the idle period release depends on the timing: repeat
+				enw.Cases = append(enw.Cases, runEnv(c, r).toCaseW())
+			}
 		case "c17route":
 			var c routeCase
 			cq.LoadReplay(o.Replay, &c)
@@ -961,6 +1192,12 @@ func main() {
 			var fc failCase
 			cq.LoadReplay(f, &fc)
 			fai.Cases = append(fai.Cases, runFail(fc, &fails).toCase("corpus"))
+		case "c17envw":
+			var ec envCase
+			cq.LoadReplay(f, &ec)
+			for k := 0; k < 2; k++ {
+				enw.Cases = append(enw.Cases, runEnv(ec, r).toCaseW())
+			}
 		case "c17pclose", "c17lclose":
 			var cc closeCase
 			set := cq.LoadReplay(f, &cc)
@@ -974,6 +1211,7 @@ func main() {
 		}
 	}
 	n := o.Scale(400, 8000)
+	rs := rand.New(rand.NewSource(o.Seed*1000003 + 41)) //nolint:gosec // SSRC dimension of the leaky-bucket cases
 	type job struct {
 		kind string
 		c    qCase
@@ -983,6 +1221,23 @@ func main() {
 	for i := 0; i < n; i++ {
 		for _, k := range []string{"pacing", "leaky"} {
 			c, b := genQ(r, k, i)
+			if k == "leaky" {
+				// the SSRCs the streams are registered with and the way they are registered (own PRNG stream)
+				ns := len(c.Writers)
+				if c.Hold > 0 {
+					ns++
+				}
+				c.Infos, b = leakySSRCs(rs, ns, b)
+				if len(c.Rates) == 0 {
+					switch rs.Intn(4) {
+					case 0:
+						c.Via = "bwe"
+					case 1:
+						c.Via = "cc"
+					}
+				}
+				b = append(b, "registered-via="+map[string]string{"": "pacer", "bwe": "send-side-bwe", "cc": "cc-interceptor"}[c.Via])
+			}
 			jobs = append(jobs, job{k, c, b})
 		}
 	}
@@ -1011,6 +1266,9 @@ func main() {
 	for i := 0; i < nf; i++ {
 		for _, k := range []string{"pacing", "leaky"} {
 			c, b := genFail(rf, k, i)
+			if k == "leaky" {
+				c.Infos, b = leakySSRCs(rs, len(c.Writers), b)
+			}
 			fjobs = append(fjobs, c)
 			fbk = append(fbk, b)
 		}
@@ -1087,6 +1345,7 @@ func main() {
 			}
 		}
 		env.Cases = append(env.Cases, ec.toCase())
+		enw.Cases = append(enw.Cases, ec.toCaseW())
 	}
 	nch := o.Scale(10, 120)
 	for i := 0; i < nch; i++ {
@@ -1099,7 +1358,9 @@ func main() {
 		case 2:
 			c.ChurnRates = []int{100_000 + r.Intn(500_000), 200_000 + r.Intn(1_000_000), 100_000}
 		}
-		env.Cases = append(env.Cases, runEnv(c, r).toCase())
+		ec := runEnv(c, r)
+		env.Cases = append(env.Cases, ec.toCase())
+		enw.Cases = append(enw.Cases, ec.toCaseW())
 	}
 	// large headers under a sustained backlog: the real bits handed downstream (8 * (marshalled header + payload), measured
 	// by the next writer) against the envelope. Own PRNG stream: the other cases keep their inputs.
@@ -1110,7 +1371,30 @@ func main() {
 		if i%4 >= 2 {
 			c.Rates = []int{300_000 + rh.Intn(600_000), 1_000_000 + rh.Intn(500_000), 500_000}
 		}
-		env.Cases = append(env.Cases, runEnv(c, rh).toCase())
+		ec := runEnv(c, rh)
+		env.Cases = append(env.Cases, ec.toCase())
+		enw.Cases = append(enw.Cases, ec.toCaseW())
+	}
+	// idle-then-backlog (round 5): configured intervals 1..4 ms (below the default), the default, and above it; with
+	// and without a mid-stream rate change before the idle period. Own PRNG stream.
+	ni := o.Scale(24, 400)
+	ri := rand.New(rand.NewSource(o.Seed*1000003 + 53)) //nolint:gosec
+	ires := make([]envCase, ni)
+	for i := 0; i < ni; i++ {
+		ires[i] = genIdle(ri, i)
+	}
+	for i := range ires {
+		wg.Add(1)
+		sem <- struct{}{}
+		go func(i int) {
+			defer wg.Done()
+			ires[i] = runEnv(ires[i], rand.New(rand.NewSource(o.Seed*7919+int64(i)))) //nolint:gosec
+			<-sem
+		}(i)
+	}
+	wg.Wait()
+	for i := range ires {
+		enw.Cases = append(enw.Cases, ires[i].toCaseW())
 	}
 	extra := map[string]interface{}{
 		"env_allow_events":                   nAllow,
@@ -1127,6 +1411,9 @@ func main() {
 	for i := 0; i < nc; i++ {
 		for _, k := range []string{"pacing", "leaky"} {
 			c, b := genClose(r, k, i)
+			if k == "leaky" {
+				c.Infos, b = leakySSRCs(rs, len(c.Writers), b)
+			}
 			cjobs = append(cjobs, cjob{c, b})
 		}
 	}
@@ -1165,6 +1452,13 @@ func main() {
 		"pacing interceptor, all sets: in half of the cases the header SSRC of each packet is independent of the StreamInfo.SSRC of the stream written on (own / next stream's / unbound / 0), "+
 		"a quarter of the multi-stream cases bind all streams with one StreamInfo.SSRC; route set: one goroutine interleaves BindLocalStream calls (distinct, shared, zero and repeated "+
 		"StreamInfo.SSRC, also mid-traffic while packets are queued) with writes on any existing binding with any header SSRC; every delivery is stamped with the binding whose next writer "+
-		"received it and the stamped sequence must equal the accepted sequence",
+		"received it and the stamped sequence must equal the accepted sequence; "+
+		"leaky bucket, all sets: the SSRCs the streams are registered with are 1000+w in a fifth of the cases, otherwise one stream has SSRC 0 / 0xFFFFFFFF, or all are boundary values "+
+		"(0, 1, 0x7FFFFFFF, 0x80000000, 0xFFFF, 0x10000, 0xFFFFFFFE, 0xFFFFFFFF), or random 32-bit values with 0 among them; c17leaky: streams registered on the pacer directly, through "+
+		"gcc.SendSideBWE.AddStream or through the cc interceptor's BindLocalStream (default pacer); "+
+		"set c17envw: every env run again, with the configured interval in the case, plus idle-then-backlog cases (Interval option 1..4 ms, default, 5..20 ms; 1..3 rounds of: a few packets, "+
+		"optional InterceptorFactory.SetRate to 0.3..40 Mbit/s, 8..25 ms without traffic, 40..90 packets at once): env_cfg_failures follows a virtual bucket whose cap is the burst allowance the "+
+		"oracle computes from the configured interval and the rates (max(12000, rate/(1000/interval_ms))) - every window of the run, real bits measured by the next writer - and checks that "+
+		"no burst handed to the limiter exceeds that allowance",
 		sets, extra, fails)
 }
